@@ -12,7 +12,8 @@ CONSTANTS Overrides,   \* override durations (seconds) besides "none"
           Cutoffs,     \* cutoff dates (seconds, midnight UTC)
           Before, After, \* renewal times are threshold - b (b in Before), threshold + a (a in After) ...
           Old, Recent, \* ... plus Now - Old and Now - Recent
-          MaxLeases
+          MaxLeases,
+          Shift        \* a second cycle runs at Now + Shift (after a restart of the server or not), on what the first one left
 
 Types == {"mutable", "immutable"}
 
@@ -42,7 +43,9 @@ Case(cfg, zero) ==
       after == Cycle(cfg, sh)
   IN [cfg |-> cfg, zero |-> zero, threshold |-> Threshold(cfg), shares |-> sh,
       expect |-> [survivors |-> after, examined |-> Examined(cfg, sh),
-                  configured |-> ConfiguredCount(cfg, sh), actual |-> ActualCount(cfg, sh)]]
+                  configured |-> ConfiguredCount(cfg, sh), actual |-> ActualCount(cfg, sh)],
+      \* the next cycle, Shift later, over the survivors (their containers now have cancelled lease slots)
+      expect2 |-> [survivors |-> CycleAt(cfg, after, Now + Shift)]]
 
 Cases == {Case(cfg, z) : cfg \in Configs, z \in BOOLEAN}
 
@@ -56,6 +59,8 @@ Spec == Init /\ [][Next]_c
 C26_Disabled_OK == C26_Disabled(c.cfg, c.shares, c.expect.survivors)
 C26_Exact_OK == C26_Exact(c.cfg, c.shares, c.expect.survivors)
 C26_ValidLeasesKept_OK == C26_ValidLeasesKept(c.cfg, c.shares, c.expect.survivors)
+\* cycles compose: two cycles leave what one cycle at the later time leaves
+C26_CyclesCompose == c.expect2.survivors = CycleAt(c.cfg, c.shares, Now + Shift)
 \* the table is not degenerate: with expiry enabled and both types selected something is deleted and something is kept
 C26_NonTrivial == (c.cfg.enabled /\ c.cfg.types = Types /\ ~c.zero) =>
                     (c.expect.actual > 0 /\ Cardinality(c.expect.survivors) > 0)
